@@ -31,6 +31,10 @@ type HistOp struct {
 	ReadFailAt int         `json:"read_fail_at,omitempty"`
 }
 
+func (o HistOp) faultFree() bool {
+	return o.Budget == 0 && o.CancelAt == 0 && len(o.Faults) == 0 && o.MaxPhys == 0 && o.MaxNest == 0 && o.MaxTail == 0 && o.MaxAlloc == 0 && o.ReadFailAt == 0
+}
+
 type HistCase struct {
 	Knobs Knobs    `json:"knobs"`
 	Ops   []HistOp `json:"ops"`
@@ -118,18 +122,39 @@ func (historyEngine) Gen(r *Rand, tier string) any {
 	c := &HistCase{}
 	c.Knobs.Stdlib = r.Chance(1, 12)
 	c.Knobs.TRO = PickStr(r, []string{"", "", "debugger", "profiler"})
+	if r.Chance(1, 4) {
+		// a tail-iteration limit that stays for the whole history: tail loops
+		// in successive evaluations must each get the full allowance
+		c.Knobs.MaxTail = r.Range(8, 40)
+	}
 	h := &histGen{r: r}
 	nops := r.Range(2, 6)
 	for i := 0; i < nops; i++ {
 		op := HistOp{}
 		op.Entry = PickStr(r, []string{"LoadString", "LoadString", "LoadStringContext", "LoadStringContext", "Load", "LoadContext",
-			"Eval", "EvalContext", "EvalSExpr", "SpecialOpCall", "LoadProgram", "LoadProgramContext", "FunCall", "FunCallContext", "MacroCall"})
+			"Eval", "EvalContext", "EvalSExpr", "SpecialOpCall", "LoadProgram", "LoadProgramContext", "FunCall", "FunCallContext", "MacroCall",
+			"FunCallHostPanic", "EmptyLoad"})
 		if (op.Entry == "FunCall" || op.Entry == "FunCallContext") && len(h.funs) == 0 {
 			op.Entry = "LoadStringContext"
 		}
 		switch op.Entry {
 		case "FunCall", "FunCallContext":
 			op.Fun = PickStr(r, h.funs)
+		case "FunCallHostPanic":
+			// the host calls a builtin whose callback is host code that panics:
+			// no evaluator frame is in between, the panic reaches the host
+			op.Fun = PickStr(r, []string{"funcall", "apply", "map"})
+			c.Ops = append(c.Ops, op)
+			continue
+		case "EmptyLoad":
+			// a load of nothing (empty or comment-only source) is a top-level evaluation too
+			op.Entry = PickStr(r, []string{"LoadString", "LoadStringContext", "LoadProgram"})
+			op.Forms = []*Node{A(PickStr(r, []string{"", "; nothing here", "   "}))}
+			if r.Bool() {
+				op.Forms = []*Node{Call("ignore-errors", Call("load-string", Str(PickStr(r, []string{"", "; c"})))), A("1")}
+			}
+			c.Ops = append(c.Ops, op)
+			continue
 		default:
 			o := GenOpts{Swallow: r.Chance(2, 3), Errors: r.Chance(1, 3), LoadStr: r.Chance(2, 3), Macros: r.Chance(1, 3),
 				Callbacks: r.Chance(1, 2), FP: true, Packages: true, Budget: r.Range(20, 90), MaxFuel: r.Range(2, 5)}
@@ -160,6 +185,14 @@ func (historyEngine) Gen(r *Rand, tier string) any {
 					forms = append(forms, h.stateOp(g))
 				}
 				forms = append(forms, g.Probe(g.E(r.Range(2, 4))))
+			}
+			if c.Knobs.MaxTail > 0 && r.Chance(1, 2) {
+				// a tail loop that uses most of the (history-wide) tail-iteration allowance
+				name := fmt.Sprintf("tt%d", i)
+				k := r.Range(c.Knobs.MaxTail/2, c.Knobs.MaxTail)
+				forms = append(forms,
+					L(A("defun"), A(name), L(A("n"), A("acc")), Call("if", Call("<=", A("n"), I(0)), A("acc"), Call(name, Call("-", A("n"), I(1)), Call("+", A("acc"), I(1))))),
+					Call("sim:probe", QS("loop"), Call(name, I(k), I(0))))
 			}
 			op.Forms = forms
 		}
@@ -339,7 +372,7 @@ func inspectionSrc() string {
 			fmt.Fprintf(&b, "(sim:probe 'insp \"%s:f%d\" %s (%s:f%d)))\n", p, i, h, p, i)
 		}
 	}
-	b.WriteString("(sim:probe 'insp \"m0\" user:m0)\n(sim:probe 'insp \"vec0\" user:vec0)\n(sim:probe 'insp \"pkg\" (sim:cur-pkg))\n")
+	b.WriteString("(sim:probe 'insp \"m0\" user:m0 (length user:m0) (keys user:m0))\n(sim:probe 'insp \"vec0\" user:vec0 (length user:vec0) (ignore-errors (nth user:vec0 (- (length user:vec0) 1))))\n(sim:probe 'insp \"pkg\" (sim:cur-pkg))\n")
 	return b.String()
 }
 
@@ -490,6 +523,19 @@ func (historyEngine) Run(ci any, st *Stats) *Violation {
 					return lisp.Nil() // the expansion marker itself is not a value
 				}
 				return v
+			case "FunCallHostPanic":
+				fn := R.Env.Get(lisp.Symbol(op.Fun))
+				fp := R.RT.Registry.Package("sim").Get(lisp.Symbol("fp"))
+				R.Faults = []FaultSpec{{FP: 900, Hit: 1, Kind: "panic"}}
+				switch op.Fun {
+				case "map":
+					// (map 'list (curry sim:fp 900) ...) needs a lisp wrapper: use funcall shape instead
+					return R.Env.FunCall(R.Env.Get(lisp.Symbol("funcall")), lisp.SExpr([]*lisp.LVal{fp, lisp.Int(900), lisp.Int(0)}))
+				case "apply":
+					return R.Env.FunCall(fn, lisp.SExpr([]*lisp.LVal{fp, lisp.Int(900), lisp.QExpr([]*lisp.LVal{lisp.Int(0)})}))
+				default:
+					return R.Env.FunCall(fn, lisp.SExpr([]*lisp.LVal{fp, lisp.Int(900), lisp.Int(0)}))
+				}
 			case "FunCall", "FunCallContext":
 				parts := strings.SplitN(op.Fun, ":", 2)
 				pk := R.RT.Registry.Package(parts[0])
@@ -514,7 +560,11 @@ func (historyEngine) Run(ci any, st *Stats) *Violation {
 		lisp.WithMaxSteps(0)(R.Env)
 		lisp.WithMaximumPhysicalStackHeight(lisp.DefaultMaxPhysicalStackHeight)(R.Env)
 		lisp.WithMaxEvalNesting(0)(R.Env)
-		lisp.WithMaxTailIterations(lisp.DefaultMaxTailIterations)(R.Env)
+		if c.Knobs.MaxTail > 0 {
+			lisp.WithMaxTailIterations(c.Knobs.MaxTail)(R.Env)
+		} else {
+			lisp.WithMaxTailIterations(lisp.DefaultMaxTailIterations)(R.Env)
+		}
 		lisp.WithMaxAlloc(0)(R.Env)
 		if skipped {
 			st.Inc("op_skipped")
@@ -582,8 +632,13 @@ func (historyEngine) Run(ci any, st *Stats) *Violation {
 			return Violf(oracle, "after op %d (%s): %s", i, op.Entry, fmt.Sprintf(format, a...))
 		}
 		// invariants after the entry point returned
-		if out.GoPanic != "" {
+		if out.GoPanic != "" && op.Entry != "FunCallHostPanic" {
 			return fail("go-panic-escaped", "%s", out.GoPanic)
+		}
+		if op.Entry == "FunCallHostPanic" {
+			st.Inc("reach_host_panic_through_direct_funcall")
+			panicFired = false // it reached the host as a Go panic, by design of this entry
+			out.IsPanic = false
 		}
 		if n := len(R.RT.Stack.Frames); n != 0 {
 			return fail("stack-not-empty", "%d frames left on the call stack (top: %s)", n, R.RT.Stack.Top().QualifiedFunName())
@@ -613,6 +668,35 @@ func (historyEngine) Run(ci any, st *Stats) *Violation {
 			st.Inc("reach_evaluated_despite_read_error")
 		}
 
+		// clean-runtime oracle: an operation without any injected fault must
+		// behave in the used runtime exactly as in a fresh runtime that was
+		// given the acknowledged operations so far
+		if op.faultFree() && strings.HasPrefix(op.Entry, "LoadString") {
+			T, err := buildTwin(c.Knobs, allOps, false)
+			if err != nil {
+				return Violf("harness", "%v", err)
+			}
+			lisp.WithMaxSteps(histSafetyCap)(T.Env)
+			var tout Outcome
+			if op.Entry == "LoadString" {
+				tout = T.Call(func() *lisp.LVal { return T.Env.LoadString("op", src) })
+			} else {
+				tout = T.Call(func() *lisp.LVal { return T.Env.LoadStringContext(NewSimCtx(T), "op", src) })
+			}
+			st.Runs++
+			emptySrc := strings.TrimSpace(src) == "" || (strings.HasPrefix(strings.TrimSpace(src), ";") && !strings.Contains(strings.TrimSpace(src), "\n"))
+			if emptySrc {
+				// nothing is evaluated: Steps() keeps reporting the previous evaluation
+				tout.Steps = out.Steps
+			}
+			if tout.Result() != out.Result() || tout.Steps != out.Steps {
+				return fail("differs-from-clean-runtime", "the used runtime gave %q in %d steps; a fresh runtime holding the same acknowledged state gives %q in %d steps", out.Result(), out.Steps, tout.Result(), tout.Steps)
+			}
+			if d := cmpEvents(relEvents(evs), relEvents(T.Events)); d != "" {
+				return fail("differs-from-clean-runtime", "%s", d)
+			}
+			st.Inc("clean_runtime_comparisons")
+		}
 		// later-evaluation oracle
 		lisp.WithMaxSteps(hugeBudget)(R.Env) // non-zero so that steps are counted
 		linesR, outR := inspect(R)
